@@ -22,6 +22,9 @@ FORMAT_DEFS = {
     "AD": ("R", "Integer"),
     "FT": ("1", "String"),
     "XF": ("1", "Float"),
+    "PSX": ("1", "Integer"),      # names sharing a prefix with the tags to remove: must be kept
+    "HPQ": ("1", "String"),
+    "GTX": ("1", "String"),
 }
 
 
@@ -40,8 +43,9 @@ def default_meta(spec):
     lines += ['##INFO=<ID=DP,Number=1,Type=Integer,Description="Total depth">',
               '##INFO=<ID=AF,Number=A,Type=Float,Description="Allele frequency">',
               '##INFO=<ID=DB,Number=0,Type=Flag,Description="dbSNP membership">']
-    if spec.get("info_ps"):
-        lines.append('##INFO=<ID=PS,Number=1,Type=Integer,Description="An INFO field that happens to be called PS">')
+    for t in (spec.get("info_tags") or (["PS"] if spec.get("info_ps") else [])):
+        lines.append(f'##INFO=<ID={t},Number=1,Type=Integer,Description="An INFO field that happens to be called {t}">')
+    lines += list(spec.get("generic_meta") or [])
     for fid, num, typ in spec["formats"]:
         lines.append(format_line(fid, num, typ))
     return lines
@@ -103,7 +107,8 @@ def record_line(spec, rec):
 
 
 def write_text(spec):
-    return "\n".join(header_lines(spec) + [record_line(spec, r) for r in spec["records"]]) + "\n"
+    return "\n".join(header_lines(spec) + [record_line(spec, r) for r in spec["records"]]) + \
+        ("" if spec.get("no_final_newline") and spec["records"] else "\n")
 
 
 # --------------------------------------------------------------------------------------- generator
@@ -111,7 +116,7 @@ def gen_gt(rng, nalt, wild):
     """GT text. tame: shapes the current code is known to survive are equally allowed in wild; wild adds every
     ploidy 1..6 with any missing pattern and mixed separators."""
     if wild:
-        ploidy = rng.choice([1, 1, 2, 2, 3, 3, 4, 5, 6])
+        ploidy = rng.choice([1, 1, 2, 2, 3, 3, 4, 5, 6, 7, 8, 10])
         mode = rng.choice(["full", "full", "full", "missing", "partial", "partial"])
     else:
         ploidy = rng.choice([2, 2, 2, 2, 2, 2, 3, 4, 6])
@@ -146,7 +151,7 @@ def gen_value(rng, key, spec_types, pos, nalt):
     if key == "PS":
         if spec_types["PS"] == "String" and rng.random() < 0.4:
             return rng.choice(["blk", "x"]) + str(rng.randint(1, 50))
-        return str(rng.choice([pos, max(1, pos - rng.randint(1, 500)), rng.randint(1, 99999)]))
+        return str(rng.choice([pos, max(1, pos - rng.randint(1, 500)), rng.randint(1, 99999), 2147483000]))
     if key == "HP":
         p = rng.choice([pos, max(1, pos - rng.randint(1, 500))])
         order = rng.choice([(1, 2), (2, 1)])
@@ -155,8 +160,12 @@ def gen_value(rng, key, spec_types, pos, nalt):
         if spec_types["PQ"] == "Float":
             return rng.choice(["23.5", "0.25", "10", "99"])
         return str(rng.randint(0, 99))
-    if key in ("DP", "GQ"):
-        return str(rng.randint(0, 200))
+    if key in ("DP", "GQ", "PSX"):
+        return str(rng.choice([rng.randint(0, 200), rng.randint(0, 200), 0, 2147483000]))
+    if key == "HPQ":
+        return rng.choice(["1-1", "x", "a%3Bb", "PS"])
+    if key == "GTX":
+        return rng.choice(["0|1", "1/0", "het"])
     if key == "AD":
         return ",".join(rng.choice([".", str(rng.randint(0, 60))]) if rng.random() < 0.1 else str(rng.randint(0, 60))
                         for _ in range(nalt + 1))
@@ -171,8 +180,19 @@ BASES = "ACGT"
 
 
 def gen_alleles(rng):
-    kind = rng.choice(["snv", "snv", "snv", "ins", "del", "multi", "multi", "noalt"])
+    kind = rng.choice(["snv", "snv", "snv", "ins", "del", "multi", "multi", "noalt", "many", "symbolic"])
     ref = rng.choice(BASES)
+    if kind == "many":
+        # 10-13 ALT alleles: allele numbers with two digits (numeric, not lexicographic, order matters)
+        n = rng.randint(10, 13)
+        alts = []
+        while len(alts) < n:
+            a = ref + "".join(rng.choice(BASES) for _ in range(rng.randint(1, 4)))
+            if a not in alts:
+                alts.append(a)
+        return ref, alts
+    if kind == "symbolic":
+        return ref, rng.choice([["<DEL>"], ["*"], ["<DEL>", rng.choice([b for b in BASES if b != ref])], ["*", "<DUP>"]])
     if kind == "snv":
         return ref, [rng.choice([b for b in BASES if b != ref])]
     if kind == "ins":
@@ -190,16 +210,30 @@ def gen_alleles(rng):
     return ref, alts
 
 
+SAMPLE_NAME_POOLS = [
+    lambda i: f"S{i + 1}",
+    lambda i: ["NA12878", "NA12891", "NA12892", "HG002", "HG003", "HG004", "child", "father", "mother", "x", "y", "z"][i % 12],
+    lambda i: ["GT", "PS", "HP", "PQ", "FORMAT", "0", "1", "10", "2", "sample", "sample1", "sample10"][i % 12],
+    lambda i: ["b", "a", "B", "A", "a.b", "a-b", "a_b", "a b", "ä", "#s", "s|1", "s/2"][i % 12],
+]
+
+GENERIC_META = ['##source=generator', '##reference=file:///ref.fa', '##phasingX=not-a-phasing-line',
+                '##Phasing=capitalised', '##phasing_method=read-based', '##ALT=<ID=DEL,Description="Deletion">',
+                '##SAMPLE=<ID=S1,Description="first">', '##commandline="whatshap phase --tag=PS"']
+
+
 def gen_spec(rng, profile=None):
-    """profile: 'tame' (no input the current code is known to crash on), 'mild', 'wild'."""
+    """profile: 'tame' (no input the pre-fix code was known to crash on), 'mild', 'wild'."""
     profile = profile or rng.choice(["tame", "tame", "mild", "mild", "wild"])
     p_wild = {"tame": 0.0, "mild": 0.04, "wild": 0.35}[profile]
     p_nogt = {"tame": 0.0, "mild": 0.03, "wild": 0.15}[profile]
-    nsamples = rng.choice([0, 1, 1, 2, 2, 3, 4])
-    samples = [f"S{i + 1}" for i in range(nsamples)]
+    nsamples = rng.choice([0, 1, 1, 2, 2, 3, 4, 4, 7, 12])
+    pool = rng.choice(SAMPLE_NAME_POOLS)
+    start = rng.randrange(12)
+    samples = [pool(start + i) if pool is not SAMPLE_NAME_POOLS[0] else pool(i) for i in range(nsamples)]
     types = {"PS": rng.choice(["Integer", "Integer", "String"]), "PQ": rng.choice(["Integer", "Integer", "Float"])}
     phase_declared = [k for k in ("PS", "HP", "PQ") if rng.random() < 0.75]
-    others_declared = [k for k in ("DP", "GQ", "AD", "FT", "XF") if rng.random() < 0.6]
+    others_declared = [k for k in ("DP", "GQ", "AD", "FT", "XF", "PSX", "HPQ", "GTX") if rng.random() < 0.5]
     formats = [["GT", "1", "String"]]
     decl = phase_declared + others_declared
     rng.shuffle(decl)
@@ -214,16 +248,24 @@ def gen_spec(rng, profile=None):
             formats.append([k, FORMAT_DEFS[k][0], FORMAT_DEFS[k][1]])
     if rng.random() < 0.2:
         rng.shuffle(formats)
-    spec = {"samples": samples, "contigs": ["chrA", "chrB"][:rng.randint(1, 2)],
-            "phasing": rng.choice([None, None, ["whatshap"], ["none"], ["partial"]]),
-            "info_ps": rng.random() < 0.15, "formats": formats, "profile": profile, "records": []}
-    spec["phasing"] = None
+    ncontig = rng.choice([1, 1, 2, 2, 5])
+    spec = {"samples": samples, "contigs": ["chrA", "chrB", "chr10", "chr2", "chrM"][:ncontig], "phasing": None,
+            "info_tags": [t for t in ("PS", "HP", "PQ") if rng.random() < 0.12],
+            "generic_meta": [l for l in GENERIC_META if rng.random() < 0.15],
+            "formats": formats, "profile": profile, "records": [],
+            "no_final_newline": rng.random() < 0.08,
+            "channel": rng.choice(["file"] * 6 + ["stdin", "gz", "bcf", "stdin"])}
     spec["meta"] = random_meta(rng, spec)
-    nrec = rng.choice([1, 1, 2, 3, 4, 6, 8])
-    pos = rng.randint(1, 2000)
+    nrec = rng.choice([0, 1, 1, 2, 3, 4, 6, 8, 8])
+    order = rng.choice(["sorted"] * 5 + ["unsorted", "duplicates"])
+    spec["order"] = order
+    pos = rng.choice([1, rng.randint(1, 2000), rng.randint(1, 2000)])
     chrom_i = 0
     for _ in range(nrec):
-        if chrom_i + 1 < len(spec["contigs"]) and rng.random() < 0.2:
+        if order == "unsorted":
+            chrom_i = rng.randrange(len(spec["contigs"]))
+            pos = rng.randint(1, 20000)
+        elif chrom_i + 1 < len(spec["contigs"]) and rng.random() < 0.25:
             chrom_i += 1
             pos = rng.randint(1, 2000)
         ref, alts = gen_alleles(rng)
@@ -235,8 +277,9 @@ def gen_spec(rng, profile=None):
             info.append("AF=" + ",".join(rng.choice(["0.5", "0.25", "0.125", "1"]) for _ in range(nalt)))
         if rng.random() < 0.2:
             info.append("DB")
-        if spec["info_ps"] and rng.random() < 0.7:
-            info.append(f"PS={rng.randint(1, 9999)}")
+        for t in spec["info_tags"]:
+            if rng.random() < 0.7:
+                info.append(f"{t}={rng.randint(1, 9999)}")
         fixed = [spec["contigs"][chrom_i], pos,
                  rng.choice([".", ".", f"rs{rng.randint(1, 9999)}", f"rs{rng.randint(1, 99)};x{rng.randint(1, 99)}"]),
                  ref, ",".join(alts) if alts else ".",
@@ -257,12 +300,22 @@ def gen_spec(rng, profile=None):
             if has_gt:
                 keys = ["GT"] + keys
             rec["format"] = keys
+            # record-level genotype style: independent draws, or everything unphased / descending / phased
+            style = rng.choice(["free"] * 4 + ["all-unphased", "all-phased", "descending"])
             for _s in samples:
                 wild = rng.random() < p_wild
                 call = []
                 for k in keys:
                     if k == "GT":
-                        call.append(gen_gt(rng, nalt, wild))
+                        g = gen_gt(rng, nalt, wild)
+                        if style == "all-unphased":
+                            g = g.replace("|", "/")
+                        elif style == "all-phased" and "/" in g:
+                            g = g.replace("/", "|")
+                        elif style == "descending" and "." not in g:
+                            al = sorted((int(x) for x in re.split(r"[/|]", g)), reverse=True)
+                            g = rng.choice("/|").join(map(str, al))
+                        call.append(g)
                     else:
                         call.append(gen_value(rng, k, types, pos, nalt))
                 # dropped trailing fields (allowed by the VCF specification)
@@ -270,7 +323,10 @@ def gen_spec(rng, profile=None):
                     call = call[:rng.randint(1, len(call) - 1)]
                 rec["calls"].append(call)
         spec["records"].append(rec)
-        pos += rng.randint(1, 3000)
+        if order == "duplicates" and rng.random() < 0.5:
+            pass                        # the next record gets the same position
+        else:
+            pos += rng.randint(1, 3000)
     return spec
 
 
